@@ -259,6 +259,10 @@ type Config struct {
 	// latest before Build. They are no part of the model: a later Build must
 	// behave as if they had never existed, and their constructors never run.
 	Ghosts []Ghost
+	// BuildMode: 0 Build(); 1 BuildWithContext with a cancellable, value-carrying
+	// context that the caller cancels once Build has returned; 2 BuildWithOptions
+	// with a (generous) build timeout. The provider is the same in all three.
+	BuildMode int
 }
 
 // Ghost is a registration that is removed again before Build (see Config.Ghosts).
@@ -281,6 +285,9 @@ func (c *Config) String() string {
 	}
 	for _, g := range c.Ghosts {
 		parts = append(parts, g.String())
+	}
+	if c.BuildMode != 0 {
+		parts = append(parts, []string{"", "[BuildWithContext, context cancelled after Build]", "[BuildWithOptions, build timeout]"}[c.BuildMode])
 	}
 	if c.PreBuild > 0 {
 		return fmt.Sprintf("[built once after the first %d] ", c.PreBuild) + strings.Join(parts, " ; ")
